@@ -44,7 +44,7 @@ type WriterDates struct {
 
 type neverSeen struct{}
 
-func (neverSeen) CheckAndSet(uint64) bool                 { return false }
+func (neverSeen) CheckAndSet(uint64) bool                { return false }
 func (n neverSeen) DB(string) numbercache.ICache[uint64] { return n }
 
 func initWriterGlobals() {
